@@ -55,7 +55,11 @@ def run(cmd, timeout=None, cwd=None, mem_gb=None, stdin=None):
             lim = int(mem_gb * (1 << 30))
             resource.setrlimit(resource.RLIMIT_AS, (lim, lim))
     t0 = time.time()
-    p = subprocess.Popen(cmd, stdout=subprocess.PIPE, stderr=subprocess.PIPE, cwd=cwd, preexec_fn=pre,
+    # private TMPDIR, removed afterwards: a solver killed at its timeout leaves its CNF / SMT2 files behind otherwise
+    import shutil, tempfile
+    os.makedirs(os.path.join(VERIF, 'build', 'tmp'), exist_ok=True)
+    tmpd = tempfile.mkdtemp(dir=os.path.join(VERIF, 'build', 'tmp'))
+    p = subprocess.Popen(cmd, stdout=subprocess.PIPE, stderr=subprocess.PIPE, cwd=cwd, preexec_fn=pre, env=dict(os.environ, TMPDIR=tmpd),
                          stdin=subprocess.DEVNULL if stdin is None else subprocess.PIPE)
     try:
         out, err = p.communicate(input=stdin, timeout=timeout)
@@ -67,6 +71,8 @@ def run(cmd, timeout=None, cwd=None, mem_gb=None, stdin=None):
             pass
         out, err = p.communicate()
         rc = None
+    finally:
+        shutil.rmtree(tmpd, ignore_errors=True)
     wall = time.time() - t0
     try:
         ru = resource.getrusage(resource.RUSAGE_CHILDREN)
